@@ -561,7 +561,36 @@ func (x *Unit) invoke(st *State, pc *preparedCall, n int) []Val {
 			st.ghost[k] = r
 		}
 	}
+	if x.inSpec == 0 {
+		x.atReturn(st, pc, ft)
+	}
 	return res
+}
+
+// atReturn handles "at return NAME assume|assert EXPR": evaluated right after the call of NAME returned
+// (result_of(NAME, i) are its results). Assumptions about library results are listed in the evidence.
+func (x *Unit) atReturn(st *State, pc *preparedCall, funText string) {
+	var b *Block
+	for fr := x.fr; fr != nil && b == nil; fr = fr.parent {
+		b = x.eng.blockFor(x.pkg.PkgPath, fr.loopBase)
+	}
+	if b == nil || live(st) == nil {
+		return
+	}
+	for i, cl := range b.Clauses {
+		if cl.Kind != "at" || cl.AtKind != "return" || cl.AtName != funText {
+			continue
+		}
+		x.atSeen[i]++
+		c := x.bodySpecCtx(st, pc.call)
+		g := x.specEval(st, cl.Expr, c)
+		if cl.AtAction == "assert" {
+			x.oblige(st, "at", fmt.Sprintf("return %s:%s", cl.AtName, clauseLabel(cl, i)), g.T, pc.call)
+		} else {
+			x.note(fmt.Sprintf("assumed after the call of %s in %s: %s", cl.AtName, x.name, cl.Text))
+			x.assume(st, g.T)
+		}
+	}
 }
 
 func (x *Unit) invoke1(st *State, pc *preparedCall, n int) []Val {
